@@ -165,7 +165,7 @@ class _R:
             given = dict((n, v) for n, v in fields)
             order = gv.CALL_FIELDS[name]
             items = []
-            positional = self.level and self.flip(0.06) and name not in ("PModel", "PAlias", "PHidden", "PExtra")
+            positional = self.level and self.flip(0.5 if name == "HFirst" else 0.12) and name not in ("PModel", "PAlias", "PHidden", "PExtra")
             # positional prefix only for leading fields present
             if positional:
                 npos = 0
@@ -213,7 +213,7 @@ ALL_DEFAULTS = {
     "NT": [("b", "0")], "TNT": [("q", "'q'")], "Outer.Cfg": [("n", "0")],
     "APriv": [("y", "2")], "PAlias": [("other", "3")],
     "Hidden": [("b", "3")], "AHidden": [("b", "3")], "PHidden": [("b", "3")], "PExtra": [],
-    "SubPoint": [("y", "0")], "Point3": [("y", "0"), ("z", "0")],
+    "SubPoint": [("y", "0")], "Point3": [("y", "0"), ("z", "0")], "HFirst": [("name", "'n'"), ("n", "0")],
 }
 
 
@@ -344,6 +344,10 @@ def mutate(draw, d, tier="quick", depth=0):
             other, rename = draw(st.sampled_from(SIBLING_CLASS[d[1]]))
             return ["call", other, [[rename.get(f, f), v] for f, v in d[2] if rename.get(f, f) in gv.CALL_FIELDS[other]]]
         return d
+    if k == "ddict":
+        # edit the content like the one of a dict, keep the factory
+        inner = draw(mutate(["dict", d[2]], tier, depth))
+        return ["ddict", d[1], inner[1]] if inner[0] == "dict" else inner
     if k in ("set", "frozenset"):
         xs = list(d[1])
         if choice <= 4:
